@@ -186,6 +186,27 @@ impl Decoder for ClientPayloadCodec {
             None => None,
         })
     }
+
+    /// Called once the connection has reached EOF.
+    ///
+    /// Only a read-until-close payload ends cleanly with the connection; a `Content-Length` or
+    /// chunked payload whose framed end has not been reached is incomplete.
+    fn decode_eof(&mut self, src: &mut BytesMut) -> Result<Option<Self::Item>, Self::Error> {
+        if self.inner.payload.is_none() {
+            // payload has already been read to its end
+            return Ok(None);
+        }
+
+        match self.decode(src)? {
+            Some(item) => Ok(Some(item)),
+            None => match self.inner.payload {
+                Some(ref payload) if !payload.is_eof_delimited() => {
+                    Err(PayloadError::Incomplete(None))
+                }
+                _ => Ok(None),
+            },
+        }
+    }
 }
 
 impl Encoder<Message<(RequestHeadType, BodySize)>> for ClientCodec {
@@ -236,5 +257,69 @@ impl Encoder<Message<(RequestHeadType, BodySize)>> for ClientCodec {
             }
         }
         Ok(())
+    }
+}
+
+#[cfg(test)]
+mod tests {
+    use super::*;
+
+    fn payload_codec(head: &str, buf: &mut BytesMut) -> ClientPayloadCodec {
+        let mut codec = ClientCodec::default();
+        buf.extend_from_slice(head.as_bytes());
+        codec.decode(buf).unwrap().unwrap();
+        codec.into_payload_codec()
+    }
+
+    #[actix_rt::test]
+    async fn eof_before_content_length_is_incomplete() {
+        let mut buf = BytesMut::new();
+        let mut pl = payload_codec("HTTP/1.1 200 OK\r\ncontent-length: 10\r\n\r\nabc", &mut buf);
+
+        let chunk = pl.decode_eof(&mut buf).unwrap().unwrap().unwrap();
+        assert_eq!(chunk, Bytes::from_static(b"abc"));
+        assert!(matches!(
+            pl.decode_eof(&mut buf),
+            Err(PayloadError::Incomplete(None))
+        ));
+    }
+
+    #[actix_rt::test]
+    async fn eof_inside_chunked_payload_is_incomplete() {
+        let mut buf = BytesMut::new();
+        let mut pl = payload_codec(
+            "HTTP/1.1 200 OK\r\ntransfer-encoding: chunked\r\n\r\n5\r\nab",
+            &mut buf,
+        );
+
+        let chunk = pl.decode_eof(&mut buf).unwrap().unwrap().unwrap();
+        assert_eq!(chunk, Bytes::from_static(b"ab"));
+        assert!(matches!(
+            pl.decode_eof(&mut buf),
+            Err(PayloadError::Incomplete(None))
+        ));
+    }
+
+    #[actix_rt::test]
+    async fn eof_after_framed_end_is_clean() {
+        let mut buf = BytesMut::new();
+        let mut pl = payload_codec("HTTP/1.1 200 OK\r\ncontent-length: 3\r\n\r\nabc", &mut buf);
+
+        let chunk = pl.decode_eof(&mut buf).unwrap().unwrap().unwrap();
+        assert_eq!(chunk, Bytes::from_static(b"abc"));
+        // end of payload
+        assert_eq!(pl.decode_eof(&mut buf).unwrap(), Some(None));
+        // end of stream
+        assert_eq!(pl.decode_eof(&mut buf).unwrap(), None);
+    }
+
+    #[actix_rt::test]
+    async fn eof_ends_read_until_close_payload() {
+        let mut buf = BytesMut::new();
+        let mut pl = payload_codec("HTTP/1.0 200 OK\r\n\r\nabc", &mut buf);
+
+        let chunk = pl.decode_eof(&mut buf).unwrap().unwrap().unwrap();
+        assert_eq!(chunk, Bytes::from_static(b"abc"));
+        assert_eq!(pl.decode_eof(&mut buf).unwrap(), None);
     }
 }
